@@ -54,12 +54,15 @@ class G:
     def s_string(self, where):
         """a sensitive string of a random lexical class"""
         core = self.p.core(True)
-        k = self.r.choice(['ascii', 'ascii', 'unicode', 'astral', 'email', 'dollar_mid', 'digits', 'escapes', 'empty', 'lookalike', 'long'])
+        k = self.r.choice(['ascii', 'ascii', 'unicode', 'astral', 'email', 'dollar_mid', 'digits', 'escapes', 'empty', 'lookalike', 'long', 'padded_email'])
         self.hit('lit_' + k)
         if k == 'ascii': s = 'secret ' + core
         elif k == 'unicode': s = 'résumé ' + core + ' 中文'
         elif k == 'astral': s = '\U0001F600' + core + '\U0001F4A9'
         elif k == 'email': s = core.lower() + '@example.com'; core = core.lower()
+        elif k == 'padded_email':
+            core = core.lower()
+            s = self.r.choice([' %s@example.com', '%s@example.com ', '\t%s@example.com\n', ' %s@example.com  ']) % core
         elif k == 'dollar_mid': s = 'a$' + core + '$b'
         elif k == 'digits': s = '90' + str(self.p.n).zfill(5) + '77'; core = s
         elif k == 'escapes': s = '"\\' + core + '\n\t<&> /\x01'
@@ -79,12 +82,13 @@ class G:
 
     def s_number(self, where):
         self.p.n += 1
-        k = self.r.choice(['int', 'int', 'big', 'dec', 'exp', 'neg'])
+        k = self.r.choice(['int', 'int', 'big', 'dec', 'exp', 'neg', 'dot0', 'Exp', 'negz'])
         base = 7000000 + self.p.n
-        lit = {'int': str(base), 'big': str(base) + '123456789012', 'dec': str(base) + '.25', 'exp': str(base) + 'e3', 'neg': '-' + str(base)}[k]
+        lit = {'int': str(base), 'big': str(base) + '123456789012', 'dec': str(base) + '.25', 'exp': str(base) + 'e3', 'neg': '-' + str(base),
+               'dot0': str(base) + '.0', 'Exp': str(base) + 'E+0', 'negz': self.r.choice(['-0.0', '-0e0', '0.0', '-0', '0e0', '0.000'])}[k]
         self.p.sens_numbers.append((str(base), where))
         if self.lr is not None and self.vary_nums:
-            lit = self.lr.choice(['0', '-0', '1', '12345678901234567890', '3.25', '1e-9', '-7E+3', str(self.lr.randint(-10**9, 10**9))])
+            lit = self.lr.choice(['0', '-0', '1', '12345678901234567890', '3.25', '1e-9', '-7E+3', '-0.0', '1.0', '0e0', str(self.lr.randint(-10**9, 10**9))])
         return RawNum(lit)
 
     def s_bool(self, where):
@@ -302,7 +306,12 @@ class G:
 
     # ---------- Atlas Search ----------
     def path(self):
-        return self.r.choice([self.field(), [self.field(), self.field()]])
+        return self.r.choice([self.field(), self.field(), [self.field(), self.field()], {'wildcard': self.field() + '*'},
+                              {'value': self.field(), 'multi': 'keywordAnalyzer'}, [self.field(), {'wildcard': 'x.*'}]])
+
+    def opath(self):
+        """the path of an operator that officially takes one field; sometimes one of the multi forms"""
+        return self.field() if self.r.random() < 0.8 else self.path()
 
     def search_op(self, where, depth=0):
         kinds = ['text', 'textarr', 'phrase', 'autocomplete', 'equals', 'in', 'range', 'near', 'regex', 'wildcard', 'queryString', 'exists', 'moreLikeThis', 'geoWithin']
@@ -315,16 +324,16 @@ class G:
         if k == 'textarr': return {'text': {'query': [self.s_string(w), self.s_string(w)], 'path': self.path()}}
         if k == 'phrase': return {'phrase': {'query': self.s_string(w), 'path': self.path(), 'slop': RawNum('2')}}
         if k == 'autocomplete': return {'autocomplete': {'query': self.s_string(w), 'path': self.field(), 'tokenOrder': 'sequential'}}
-        if k == 'equals': return {'equals': {'path': self.field(), 'value': self.literal(w, depth + 1, True)}}
-        if k == 'in': return {'in': {'path': self.field(), 'value': [self.literal(w, depth + 1, True) for _ in range(self.r.randint(1, 3))]}}
-        if k == 'range': return {'range': {'path': self.field(), 'gte': self.literal(w, depth + 1, True), 'lt': self.literal(w, depth + 1, True)}}
-        if k == 'near': return {'near': {'path': self.field(), 'origin': self.r.choice([self.s_date(w), self.s_number(w)]), 'pivot': self.s_number(w)}}
+        if k == 'equals': return {'equals': {'path': self.opath(), 'value': self.literal(w, depth + 1, True)}}
+        if k == 'in': return {'in': {'path': self.opath(), 'value': [self.literal(w, depth + 1, True) for _ in range(self.r.randint(1, 3))]}}
+        if k == 'range': return {'range': {'path': self.opath(), 'gte': self.literal(w, depth + 1, True), 'lt': self.literal(w, depth + 1, True)}}
+        if k == 'near': return {'near': {'path': self.opath(), 'origin': self.r.choice([self.s_date(w), self.s_number(w)]), 'pivot': self.s_number(w)}}
         if k == 'regex': return {'regex': {'query': self.s_string(w), 'path': self.field(), 'allowAnalyzedField': True}}
         if k == 'wildcard': return {'wildcard': {'query': self.s_string(w), 'path': self.field()}}
         if k == 'queryString': return {'queryString': {'defaultPath': self.field(), 'query': self.s_string(w)}}
-        if k == 'exists': return {'exists': {'path': self.field()}}
+        if k == 'exists': return {'exists': {'path': self.opath()}}
         if k == 'moreLikeThis': return {'moreLikeThis': {'like': {self.field(): self.literal(w, depth + 1, True)}}}
-        if k == 'geoWithin': return {'geoWithin': {'path': self.field(), 'circle': {'center': {'type': 'Point', 'coordinates': [self.s_number(w), self.s_number(w)]}, 'radius': self.s_number(w)}}}
+        if k == 'geoWithin': return {'geoWithin': {'path': self.opath(), 'circle': {'center': {'type': 'Point', 'coordinates': [self.s_number(w), self.s_number(w)]}, 'radius': self.s_number(w)}}}
         if k == 'compound':
             d = {}
             for cl in self.r.sample(['must', 'mustNot', 'should', 'filter'], self.r.randint(1, 3)):
@@ -342,6 +351,7 @@ class G:
             if self.r.random() < 0.3: d['highlight'] = {'path': self.field()}
             if self.r.random() < 0.3: d['count'] = {'type': 'total'}
             if self.r.random() < 0.2: d['returnStoredSource'] = True
+            if self.r.random() < 0.25: d['sort'] = {self.field(): RawNum('1'), 'score': {'$meta': 'searchScore'}}
             return {'$search': d}
         if k == '$searchMeta':
             d = {'index': self.name()}
@@ -368,7 +378,8 @@ class G:
         elif verb == 'aggregate':
             c = {'aggregate': ns_coll, 'pipeline': self.pipeline(w + '.pipeline'), 'cursor': {}}
         elif verb == 'aggsearch':
-            c = {'aggregate': ns_coll, 'pipeline': [self.search_stage(w + '.pipeline')] + self.pipeline(w + '.pipeline', 2), 'cursor': {}}
+            pre = self.pipeline(w + '.pipeline', 2)[:2] if self.r.random() < 0.35 else []   # a search stage that is not the first stage (rejected by the server, logged all the same)
+            c = {'aggregate': ns_coll, 'pipeline': pre + [self.search_stage(w + '.pipeline')] + self.pipeline(w + '.pipeline', 2), 'cursor': {}}
         elif verb == 'insert':
             c = {'insert': ns_coll, 'documents': [{self.field(): self.literal(w + '.documents') for _ in range(self.r.randint(0, 3))} for _ in range(self.r.randint(0, 3))], 'ordered': True}
         elif verb == 'update':
@@ -465,7 +476,7 @@ def anyjson_tree(rng, vocab, depth=0, maxdepth=5):
     if k == 'str': return rng.choice(['x', '', 'a@b.co', 'héllo', '2024-01-01T00:00:00Z', 'REDACTED', '0123456789abcdef01234567', 'a"b\\c\n', '\U0001F600', '<tag>&',
                                       '\x1b[31mred\x1b[0m', 'bell\x07', 'vt\x0b ff\x0c bs\x08', 'del\x7f', 'tag\U000e0001x', 'nbsp\u00a0 ls\u2028 ps\u2029', '\ufeffbom', 'nul\x00z'])
     if k == 'dollar': return rng.choice(['$name', '$$ROOT', '$', '$a.b', '$eq', '$limit'])
-    if k == 'num': return RawNum(rng.choice(['0', '1', '-1', '1.5', '1e10', '-0', '12345678901234567890', '0.1e-7', '1E+2', '9007199254740993']))
+    if k == 'num': return RawNum(rng.choice(['0', '1', '-1', '1.5', '1e10', '-0', '12345678901234567890', '0.1e-7', '1E+2', '9007199254740993', '-0.0', '-0e0', '0.0', '1.0', '100e-2', '1E0', '0.10', '1e400', '-1e-400']))
     if k == 'bool': return rng.choice([True, False])
     if k == 'null': return None
     if k == 'emptyobj': return {}
@@ -536,6 +547,34 @@ def wrapper_lines(vocab):
             out.append(('{"c":"COMMAND","attr":{"command":{"filter":{"x":{"$binary":{"base64":%s,"subType":%s}}},"pipeline":[{"$match":{"$binary":{%s:%s}}},{"$project":{"y":{"$date":%s}}}]}}}' % (v, v, kq, v, v)).encode())
     return out
 
+def search_lines(vocab):
+    """every kind of argument value (plain kinds, extended-JSON wrappers, multi-path forms) under every search operator, in a search
+    stage at the first and at a later pipeline position, directly and inside a compound clause, with a sort document"""
+    vals = ['"s@t.co"', '5', 'true', 'null', '{"$date":"2020-01-02T03:04:05.006Z"}', '{"$oid":"0123456789abcdef01234567"}',
+            '{"$binary":{"base64":"QUJDREVGRw==","subType":"04"}}', '["a@b.co","x"]', '{"wildcard":"na*"}', '{"value":"f","multi":"m"}',
+            '[{"$date":"2020-01-02T03:04:05.006Z"},7]', '{"$numberLong":"77"}', '{"$uuid":"a657a630-1111-0000-0000-d01de73c37e7"}']
+    args = ['value', 'query', 'path', 'origin', 'gte', 'lt', 'like', 'defaultPath', 'pivot']
+    bodies = []
+    for oi, op in enumerate(vocab.get('search_ops', [])):
+        for vi, v in enumerate(vals):
+            a = args[(oi + vi) % len(args)]
+            bodies.append(('%s:{%s:%s}' if a == 'path' else '%s:{%s:%s,"path":"title"}') % (json.dumps(op), json.dumps(a), v))
+    for op in ('equals', 'text', 'range'):
+        for a in args:
+            for v in vals:
+                bodies.append('%s:{%s:%s}' % (json.dumps(op), json.dumps(a), v))
+    stages = vocab.get('search_stages', ['$search'])
+    out = []
+    for i, b in enumerate(bodies):
+        st = stages[i % len(stages)] if i % 3 == 0 else '$search'
+        tpls = ['[{%(st)s:{"index":"idx1",%(b)s}},{"$limit":5}]',
+                '[{"$match":{"year":1999}},{%(st)s:{"index":"idx2",%(b)s,"sort":{"title":1}}}]',
+                '[{%(st)s:{"index":"idx3","compound":{"must":[{%(b)s}],"should":[{"text":{"query":"q","path":["title",{"wildcard":"x*"}]}}]},"sort":{"released":-1}}}]',
+                '[{"$sort":{"a":1}},{"$project":{"a":1}},{%(st)s:{"index":"idx4","numCandidates":150,"limit":10,%(b)s}}]']
+        for t in (tpls[i % 4], tpls[(i + 1) % 4]):
+            out.append(('{"c":"COMMAND","msg":"Slow query","attr":{"ns":"d.c","command":{"aggregate":"c","pipeline":%s,"$db":"d"}}}' % (t % {'st': json.dumps(st), 'b': b})).encode())
+    return out
+
 def vocab_from_dump(dump):
     allk, argnames = [], []
     def walk(m, top):
@@ -550,7 +589,7 @@ def vocab_from_dump(dump):
     for k in allk:
         if k not in seen:
             seen.add(k); a2.append(k)
-    return {'all': a2, 'argnames': sorted(set(argnames))}
+    return {'all': a2, 'argnames': sorted(set(argnames)), 'search_ops': [k for k, _ in dump['tables']['Search']['m']], 'search_stages': [k for k, _ in dump['tables']['SearchAgg']['m']]}
 
 
 # ---------- plan summaries with awkward index-key names ----------
